@@ -114,13 +114,19 @@ ParseMember(m0) ==
        ELSE IF \E i \in 1..Len(body) : body[i].t = "raw" THEN [v |-> "wild", e |-> Wild]
        ELSE IF \E i \in 1..Len(body) : body[i].t = "bad" THEN [v |-> "drop", e |-> Wild]
        ELSE IF ~ValidKeyS(dk) \/ ~ValidValS(dv) THEN [v |-> "drop", e |-> Wild]
-       ELSE IF ~IsPrintable(dm) THEN [v |-> "devkeep", e |-> <<dk, dv \o dm>>]
+       ELSE IF ~IsPrintable(dm)
+              \* must be dropped.  The listed deviation keeps the member: verbatim, or (storage is a C
+              \* string) cut at the first non-printable byte when that byte is NUL
+              THEN [v |-> "devkeep", e |-> <<dk, dv \o dm>>,
+                    c |-> <<dk, dv \o SubSeq(dm, 1, MinS({i \in 1..Len(dm) : dm[i].c = "np"}) - 1)>>]
        ELSE [v |-> "keep", e |-> <<dk, dv \o dm>>]
 
 Verdicts(h) == LET ms == MembersOf(h) IN [j \in 1..Len(ms) |-> ParseMember(ms[j])]
 \* the items of the verdicts vs[lo..hi] that are in `kinds`, in order
 Items(vs, kinds) == LET idx == SelectSeq([j \in 1..Len(vs) |-> j], LAMBDA j : vs[j].v \in kinds)
                     IN [i \in 1..Len(idx) |-> vs[idx[i]].e]
+ItemsCut(vs, kinds) == LET idx == SelectSeq([j \in 1..Len(vs) |-> j], LAMBDA j : vs[j].v \in kinds)
+                       IN [i \in 1..Len(idx) |-> IF vs[idx[i]].v = "devkeep" THEN vs[idx[i]].c ELSE vs[idx[i]].e]
 Prefix(s, n) == SubSeq(s, 1, IF Len(s) < n THEN Len(s) ELSE n)
 
 \* ideal result: the kept members (and wildcards) in order, at most 180; nothing for an over-long header
@@ -128,6 +134,8 @@ FromHeaderK(h, kinds) ==
   IF Size(h) > MaxHeader THEN <<>> ELSE Prefix(Items(Verdicts(h), kinds), MaxMembers)
 FromHeader(h)    == FromHeaderK(h, {"keep", "wild"})
 FromHeaderDev(h) == FromHeaderK(h, {"keep", "wild", "devkeep"})
+FromHeaderDevCut(h) == IF Size(h) > MaxHeader THEN <<>>
+                       ELSE Prefix(ItemsCut(Verdicts(h), {"keep", "wild", "devkeep"}), MaxMembers)
 
 \* other outcomes the statement equally allows (don't-care bands around the limits):
 \*  > 180 members: nothing at all, or only what the first 180 members yield;
@@ -253,12 +261,14 @@ AltSeq(h, c0) == LET ctxB == IF c0 = "b0" THEN B0 ELSE <<>>
                      S == {Extract(ctxB, r) : r \in FromAlts(h)} \ {Extract(ctxB, FromHeader(h))}
                  IN SetToSeq(S)
 HasWild(h) == \E j \in 1..Len(Verdicts(h)) : Verdicts(h)[j].v = "wild"
-XRec(h, c0) == [op |-> "extract", hdr |-> h, ctx0 |-> c0,
+XRec(h, c0) == [op |-> "extract", hdr |-> h, ctx0 |-> c0, b0 |-> B0,
                 exp |-> Extract(IF c0 = "b0" THEN B0 ELSE <<>>, FromHeader(h)),
                 alt |-> AltSeq(h, c0),
                 dev |-> IF FromHeaderDev(h) # FromHeader(h)
                           THEN <<[dev |-> "metadata-nonprintable-kept",
-                                  res |-> Extract(IF c0 = "b0" THEN B0 ELSE <<>>, FromHeaderDev(h))]>>
+                                  res |-> Extract(IF c0 = "b0" THEN B0 ELSE <<>>, FromHeaderDev(h))],
+                                 [dev |-> "metadata-nonprintable-kept",
+                                  res |-> Extract(IF c0 = "b0" THEN B0 ELSE <<>>, FromHeaderDevCut(h))]>>
                           ELSE <<>>]
 
 InitObjs ==
@@ -306,8 +316,13 @@ ARoundTrip == nops < MaxOps /\ Menu \in {"ops", "rt1", "rt2"} /\ \E o \in Objs :
              /\ nops' = nops + 1 /\ UNCHANGED <<hdr, devUsed>>
              /\ hist' = Ent([op |-> "rt", o |-> o, members |-> Members1(objs[o]),
                              exp |-> Extract(<<>>, FromHeader(ToHeader(objs[o])))])
-\* Menu "mix": a header is assembled from random members of the menu, then extracted
+\* Menu "mix": a header is assembled from random members of the menu, then extracted.  Two members
+\* with the same decoded key are never combined (what a duplicate key yields is not pinned).
+DKey(m0) == LET m == Trim(m0)
+                eqs == {i \in 1..Len(m) : IsRawC(m[i], "eq")}
+            IN IF m = <<>> \/ eqs = {} THEN <<>> ELSE Dec(Trim(SubSeq(m, 1, MinS(eqs) - 1)))
 AAppendMember == Menu = "mix" /\ nops < MaxOps /\ \E m \in MemberMenu :
+             /\ (nops > 0 /\ DKey(m) # <<>>) => \A j \in 1..Len(MembersOf(hdr)) : DKey(MembersOf(hdr)[j]) # DKey(m)
              /\ hdr' = IF nops = 0 THEN m ELSE hdr \o <<Comma>> \o m
              /\ nops' = nops + 1 /\ UNCHANGED <<objs, devUsed>>
              /\ last' = [op |-> "extract", hdr |-> hdr', res |-> FromHeader(hdr')]
@@ -333,6 +348,9 @@ DeleteRemoves == last.op = "del" =>
 \* Inject then Extract rebuilds the same entries in the same order
 RoundTrip == \A o \in Newest : Promised(objs[o]) => FromHeader(ToHeader(objs[o])) = objs[o]
 RoundTripStep == last.op = "rt" => last.res = last.src
+\* teeth of the promise: outside it (a ',' after ';') the round trip does NOT hold
+PromiseIsTight == LET X == <<<<Str(<<"a">>), Str(<<"b", "sc", "a", "cm", "b">>)>>>> IN
+                  ~Promised(X) /\ FromHeader(ToHeader(X)) # X
 \* characters outside the token set never appear unescaped in the key / value part of a member
 HeaderClean == \A o \in Newest : \A i \in 1..Len(objs[o]) :
                  LET e == objs[o][i]
